@@ -8,6 +8,7 @@
 package limiter
 
 import (
+	"time"
 	"strings"
 
 	proxyv1alpha1 "github.com/kubewharf/kubegateway/pkg/apis/proxy/v1alpha1"
@@ -36,11 +37,16 @@ func HarnessC13NotLeaderAcquire() {
 
 // HarnessC13StopLeading: losing a shard drops its store from the map and stops it; other shards keep theirs.
 // leaderCheck stops exactly the shards whose recorded leader is not this instance.
-// verif:bounds 2 shards with stores; symbolic leader table (me / other / absent per shard)
+// verif:bounds 2 shards with stores; symbolic leader table (me / other / absent per shard); the store's first Stop attempt (final flush) fails or succeeds symbolically
+// verif:replace time.Sleep => verifC13NoSleep
+// verif:opt witnesses=4
+func verifC13NoSleep(d time.Duration) {}
+
 func HarnessC13StopLeading() {
 	verifResetGhosts()
 	r, _ := verifLimiter(true, proxyv1alpha1.TokenBucket)
-	s0, s1 := &fakeStore{fc: &fakeFC{}}, &fakeStore{fc: &fakeFC{}}
+	// the store's final flush may fail at the first attempt (symbolic): the in-memory state is dropped all the same
+	s0, s1 := &fakeStore{fc: &fakeFC{}, stopFails: true}, &fakeStore{fc: &fakeFC{}, stopFails: true}
 	r.limitStoreMap[0], r.limitStoreMap[1] = s0, s1
 	el := r.leaderElector.(*fakeElector)
 	el.leaders = map[int]proxyv1alpha1.EndpointInfo{}
